@@ -280,3 +280,51 @@ def replay_step(pi, r, la, lr, j, fn="ind_step") -> bool:
         if kind == "datatype" and ref == 0:
             return False
     return True
+
+
+# ---------------------------------------------------------------------------------------
+# H-TAB-BMC: bounded histories from the real initial state, public methods only.
+
+def bmc_alphabet():
+    n, kind = P["n"], P["kind"]
+    al = [f"a{i}" for i in range(n + 2)]
+    if kind == "prefix":
+        al[0] = ""
+    return al
+
+
+def pre_bmc(ks) -> bool:
+    L, n = P["L"], P["n"]
+    if len(ks) != L:
+        return False
+    return all_([(0 <= k) & (k <= n + 1) for k in ks])
+
+
+def bmc(ks: List[int]) -> bool:
+    """
+    pre: pre_bmc(ks)
+    post: _
+    """
+    n, kind = P["n"], P["kind"]
+    al = bmc_alphabet()
+    ok = True
+    try:
+        enc = LookupEncoder(lookup_size=n)
+        dec = LookupDecoder(lookup_size=n)
+        for pos, k in enumerate(list(P.get("fixed", [])) + list(ks)):
+            key = None
+            for i in range(n + 2):
+                if k == i:
+                    key = al[i]
+            entry, ref, got = use(enc, dec, key)
+            if got != key or not (0 <= ref <= n) or (entry is not None and not (0 <= entry <= n)):
+                ok = False
+            if len(enc.lookup.data) > n or sum(1 for s in dec.data if s is not None) > n:
+                ok = False
+            if enc.last_assigned_index != dec.last_assigned_index or enc.last_reused_index != dec.last_reused_index:
+                ok = False
+        if P.get("twin"):
+            ok = False
+    except Exception:  # noqa: BLE001
+        ok = False
+    return fin(M, ok, ks=ks)
